@@ -354,6 +354,7 @@ type simNode struct {
 	starting bool
 	skew    time.Duration
 	lastHeight int64
+	startFails int
 }
 
 func (n *simNode) point(label string) { n.ctl.Point(label) }
